@@ -3,7 +3,7 @@
 Workload: seeded FlowIR / DSL 2.0 / DOSINI packages with option sets (platform, 0..4 user variable files given in a
 stated order).  Every package is loaded by K REAL child processes that differ in PYTHONHASHSEED, in the key order of
 the (semantically equal) input documents and in the order in which os.listdir/os.scandir/glob answer (shim inside the
-child), through three entry points (configuration factory, WorkflowGraph.graphFromPackage,
+child), through four entry points (configuration factory, WorkflowGraph.graphFromPackage replicated and PRIMITIVE,
 Experiment.experimentFromPackage).  Each child prints a canonical dump.
 
 Oracle:  (B) all dumps of one (package, options, entry point) are equal;
@@ -27,7 +27,7 @@ vlib.bootstrap()
 from checks import _c15_gen as gen  # noqa: E402
 
 KNOWN_KEY = "C15:variable-files-order-lost-by-set-dedup"
-ENTRIES = ("factory", "graph", "experiment")
+ENTRIES = ("factory", "graph", "graph_primitive", "experiment")
 INFO_KEYS = ("layering_order_seen", "info_stored_component_order")
 HASH_PROBES = ("c15-probe", "stage0.a", "uv0")
 
@@ -174,7 +174,7 @@ def judge_case(c: vlib.Check, case: Dict[str, Any], per_child: List[Dict[str, An
                 key = None
                 # structural classifier of the known mechanism: the configuration holds the SAME set of files in an
                 # order that is not the given one, and what it reports is exactly the fold in that other order.
-                if (entry in ("factory", "graph") and isinstance(seen, list) and sorted(seen) == uniq_given
+                if (entry in ("factory", "graph", "graph_primitive") and isinstance(seen, list) and sorted(seen) == uniq_given
                         and len(uniq_given) >= 2 and fold(case, seen) == uv and fold(case, seen) != expected):
                     key = KNOWN_KEY
                     is_tainted = True
@@ -241,6 +241,12 @@ def judge_case(c: vlib.Check, case: Dict[str, Any], per_child: List[Dict[str, An
                          "child_seeds": [p["child_seed"] for p in per_child]})
             if all_eq:
                 c.count("groups_all_equal")
+            if entry == "graph_primitive":
+                c.count("primitive_graphs_compared")
+                nd = sum(1 for e_ in (ref.get("edges") or []) if re.search(r"[0-9]$", e_[0]))
+                if nd:
+                    c.count("primitive_graphs_with_edges_from_producers_named_with_trailing_digit")
+                    c.count("primitive_edges_from_producers_named_with_trailing_digit", nd)
             if case["kind"] == "dsl" and any(re.search(r"-[IVX]+$", n) for n in ref.get("nodes") or []):
                 c.count("dsl_groups_with_duplicated_step_names")
             if case["kind"] == "dsl" and len((ref.get("environments_defined") or {}).get("default", {})) >= 1:
@@ -339,7 +345,7 @@ def main():
     c = vlib.Check(
         "C15", "exploration",
         rule="seeded FlowIR / DSL 2.0 / DOSINI packages x option sets (platform, 0-4 user variable files in a given "
-             "order, a path possibly given twice), each loaded through 3 entry points by K real child processes with "
+             "order, a path possibly given twice), each loaded through 4 entry points (incl. the primitive graph; FlowIR/DOSINI components may have names ending in digits) by K real child processes with "
              "distinct PYTHONHASHSEED, re-shuffled mapping key order of every input document and shuffled "
              "listdir/scandir/glob answers; a package counts as non-trivial when >= 2 children with different string "
              "hash functions produced a dump for it; distinct = distinct structural classes (kind, #stages, "
@@ -375,7 +381,9 @@ def main():
     c.floor("packages_judged_flowir", int(n * 0.3))
     c.floor("packages_judged_dsl", int(n * 0.3))
     c.floor("packages_judged_dosini", int(n * 0.1))
-    c.floor("groups_compared", int(n * 3 * 0.7))
+    c.floor("groups_compared", int(n * 4 * 0.7))
+    c.floor("primitive_graphs_compared", int(n * 0.8))
+    c.floor("primitive_graphs_with_edges_from_producers_named_with_trailing_digit", max(3, n // 5))
     c.floor("lastwins_children_judged_with_conflicting_files", n * p["children"] // 4)
     c.floor("no_loser_value_checks", n * p["children"] // 4)
     c.floor("winner_value_seen_in_resolved_config", n)
